@@ -4,6 +4,7 @@ cd "$(dirname "$0")/.."
 ids=${@:-$(ls seeded | grep -v -E "README|MATRIX")}
 for id in $ids; do
   checks=$(python3 -c "import json;print(' '.join(json.load(open('seeded/$id/meta.json'))['checks_expected_to_catch']))")
+  [ -z "$checks" ] && { echo "$id SKIPPED (superseded, see meta.json)"; continue; }
   git -C /repo apply "$PWD/seeded/$id/patch.diff" || { echo "$id PATCH-DOES-NOT-APPLY"; continue; }
   for c in $checks; do
     out=$(./check $c --tier quick 2>&1); rc=$?
